@@ -1,1 +1,2 @@
 import Driver.Ver
+import Driver.Rx
